@@ -213,9 +213,19 @@ def mk(docs, job, cfg):
                         eq = engine.entry_is(x, en, u, size_of[u].t)
                         if eq is True or (eq is not False and x.valid(eq)):
                             cands.append(u)
-                    # entries with equal (e.g. empty) payloads are interchangeable: prefer one not seen yet
-                    fresh = [u for u in cands if u not in ids]
-                    ids.append(fresh[0] if fresh else (cands[0] if cands else None))
+                    # entries with provably equal (e.g. empty) payloads are interchangeable: all of them are mapped to
+                    # the smallest such uid, in the drained stream and in the expected streams alike
+                    ids.append(min(cands) if cands else None)
+                canon = {}
+                for u in ack + infl:
+                    for v in sorted(ack + infl):
+                        if v == u or (v < u and x.valid(z3.And(size_of[u].t == 0, size_of[v].t == 0))):
+                            canon[u] = v
+                            break
+                ack_uids, infl_uids = ack, infl
+                ack = [canon[u] for u in ack]
+                infl = [canon[u] for u in infl]
+                ids = [canon.get(u, u) for u in ids]
                 summary[topic] = dict(acked=ack, delivered=d, inflight=infl, drained=ids)
                 if None in ids:
                     bad = ('c07-foreign', 'topic %s: an entry returned after recovery is none of the appended entries: %s' % (topic, [engine.describe_entry(x, e_) for e_ in got]))
